@@ -6,7 +6,7 @@ from typing import Any, Dict
 from .. import gen, hta
 from ..core import Prop
 from .c04 import breakdown_cfg
-from .common import case_from_cfg, draw_prefix, frame_rows, write_and_load
+from .common import file_entries, case_from_cfg, draw_prefix, frame_rows, write_and_load
 
 
 class C07(Prop):
@@ -49,7 +49,7 @@ class C07(Prop):
                 return obs
             for _, row in df.iterrows():
                 r = int(row["rank"])
-                obs["ranks"].append({"rank": r, "rows": rows[r], "pctg": hta.scaled(row["comp_comm_overlap_pctg"], 100)})
+                obs["ranks"].append({"rank": r, "file": file_entries(case, r), "rows": rows[r], "pctg": hta.scaled(row["comp_comm_overlap_pctg"], 100)})
             return obs
 
     def nontrivial(self, case, obs) -> bool:
